@@ -5,14 +5,6 @@ From DV Require Import Model.PyPrims Model.Tree Model.C07Model Model.C07Spec
 Import ListNotations.
 Open Scope Z_scope.
 
-Lemma uniform_cond coll r t :
-  (coll = true -> r <> Some true -> uniform_lengths t) ->
-  (coll && not_rooted r = true -> uniform_lengths t).
-Proof.
-  intros H C. apply andb_true_iff in C. destruct C as [C1 C2]. apply H; [assumption|].
-  intro E. subst r. discriminate.
-Qed.
-
 Lemma rotate_one_edge_l i x l e A i' x' l' e' ks' B :
   ks' <> [] -> A ++ B <> [] ->
   NoDup (leaf_taxa (T i x l e (A ++ T i' x' l' e' ks' :: B))) ->
@@ -27,12 +19,11 @@ Proof. intros. apply equivU_unfold. apply rot_step; assumption. Qed.
 Lemma reseed_at_l t r n upd coll supp t' r' :
   reseed_at t r n upd coll supp = Ok (t', r') ->
   is_internal_node n t -> (2 <= length (t_kids t))%nat -> NoDup (leaf_taxa t) ->
-  (coll = true -> r <> Some true -> uniform_lengths t) ->
   Permutation (leaf_taxa t) (leaf_taxa t')
   /\ (forall S, is_usplit t S <-> is_usplit t' S)
   /\ total_length t' = total_length t
   /\ (forall a b, dist a b t' = dist a b t).
-Proof. intros. apply equivU_unfold. eapply reseed_at_equivU; eauto. apply uniform_cond; assumption. Qed.
+Proof. intros. apply equivU_unfold. eapply reseed_at_equivU; eauto. Qed.
 
 Lemma reroot_at_node_l t r n upd supp coll t' r' :
   reroot_at_node t r n upd supp coll = Ok (t', r') ->
@@ -117,12 +108,12 @@ Proof. intros. apply equivU_unfold, equivT_U. eapply rotate_equivT; eauto. Qed.
 
 Lemma reorient_l t r n upd sc t' r' :
   reorient t r n upd sc = Ok (t', r') ->
-  NoDup (ids t) -> (2 <= length (t_kids t))%nat -> NoDup (leaf_taxa t) -> uniform_lengths t ->
+  NoDup (ids t) -> (2 <= length (t_kids t))%nat -> NoDup (leaf_taxa t) ->
   Permutation (leaf_taxa t) (leaf_taxa t')
   /\ (forall S, is_usplit t S <-> is_usplit t' S)
   /\ total_length t' = total_length t
   /\ (forall a b, dist a b t' = dist a b t).
-Proof. intros H NI TK ND U. apply equivU_unfold. eapply reorient_equivU; eauto. Qed.
+Proof. intros H NI TK ND. apply equivU_unfold. eapply reorient_equivU; eauto. Qed.
 
 Lemma suppress_l t :
   leaf_taxa (suppress t) = leaf_taxa t
@@ -135,7 +126,7 @@ Proof.
 Qed.
 
 Lemma collapse_basal_l t t' did :
-  collapse_basal t = (t', did) -> NoDup (leaf_taxa t) -> uniform_lengths t ->
+  collapse_basal t = (t', did) -> NoDup (leaf_taxa t) ->
   Permutation (leaf_taxa t) (leaf_taxa t')
   /\ (forall S, is_usplit t S <-> is_usplit t' S)
   /\ total_length t' = total_length t
@@ -169,21 +160,17 @@ Ltac nodup_tac := repeat (constructor; [simpl; intuition congruence|]); construc
 Lemma ex_t_nodup : NoDup (leaf_taxa ex_t). Proof. simpl. nodup_tac. Qed.
 Lemma ex_t_ids : NoDup (ids ex_t). Proof. simpl. nodup_tac. Qed.
 Lemma ex_t_two : (2 <= length (t_kids ex_t))%nat. Proof. simpl. lia. Qed.
-Lemma ex_t_uniform : uniform_lengths ex_t.
-Proof. left. unfold nonroot_lens. simpl. repeat (constructor; [discriminate|]). constructor. Qed.
 Lemma ex_mixed_nodup : NoDup (leaf_taxa ex_mixed). Proof. simpl. nodup_tac. Qed.
 
-(* the faithful model loses length on mixed None / defined lengths *)
-Lemma mixed_refuted :
-  exists t r n upd coll supp t' r',
-    reseed_at t r n upd coll supp = Ok (t', r')
-    /\ is_internal_node n t /\ (2 <= length (t_kids t))%nat /\ NoDup (leaf_taxa t)
-    /\ total_length t' <> total_length t.
+(* mixed None / defined lengths (lost length before fix 1fc3f136): the basal collapse now keeps it *)
+Lemma ex_reseed_mixed :
+  exists t' r', reseed_at ex_mixed None 0 false true true = Ok (t', r') /\ t' <> ex_mixed
+    /\ is_internal_node 0 ex_mixed /\ (2 <= length (t_kids ex_mixed))%nat /\ NoDup (leaf_taxa ex_mixed)
+    /\ total_length t' = 6144 /\ total_length ex_mixed = 6144.
 Proof.
-  exists ex_mixed, None, 0, false, true, true. eexists. eexists.
-  split; [vm_compute; reflexivity|]. split; [|split; [simpl; lia | split; [apply ex_mixed_nodup|]]].
-  - eexists. split; [vm_compute; reflexivity | discriminate].
-  - vm_compute. discriminate.
+  eexists. eexists. split; [vm_compute; reflexivity|]. split; [discriminate|].
+  split; [eexists; split; [vm_compute; reflexivity | discriminate]|].
+  split; [simpl; lia|]. split; [apply ex_mixed_nodup|]. split; vm_compute; reflexivity.
 Qed.
 
 (* the strict "soft operations leave the flag as it was" fails: None becomes Some false *)
@@ -197,24 +184,23 @@ Qed.
 Lemma reseed_leaf_refuted :
   exists t r n upd coll supp t' r' X,
     reseed_at t r n upd coll supp = Ok (t', r') /\ find_node n t = Some X /\ t_kids X = []
-    /\ (2 <= length (t_kids t))%nat /\ NoDup (leaf_taxa t) /\ uniform_lengths t
+    /\ (2 <= length (t_kids t))%nat /\ NoDup (leaf_taxa t)
     /\ total_length t' <> total_length t.
 Proof.
   exists ex_t, (Some true), 2, false, true, true. eexists. eexists. eexists.
   split; [vm_compute; reflexivity|]. split; [vm_compute; reflexivity|]. split; [reflexivity|].
-  split; [apply ex_t_two|]. split; [apply ex_t_nodup|]. split; [apply ex_t_uniform|].
+  split; [apply ex_t_two|]. split; [apply ex_t_nodup|].
   vm_compute. discriminate.
 Qed.
 
 (* ---------- non-vacuity: the hypotheses of the theorems are satisfiable, on non-trivial calls ---------- *)
 Lemma ex_reseed :
   exists t' r', reseed_at ex_t None 1 true true true = Ok (t', r') /\ t' <> ex_t
-    /\ is_internal_node 1 ex_t /\ (2 <= length (t_kids ex_t))%nat /\ NoDup (leaf_taxa ex_t)
-    /\ (true = true -> None <> Some true -> uniform_lengths ex_t).
+    /\ is_internal_node 1 ex_t /\ (2 <= length (t_kids ex_t))%nat /\ NoDup (leaf_taxa ex_t).
 Proof.
   eexists. eexists. split; [vm_compute; reflexivity|]. split; [discriminate|].
   split; [eexists; split; [vm_compute; reflexivity | discriminate]|].
-  split; [apply ex_t_two|]. split; [apply ex_t_nodup|]. intros _ _. apply ex_t_uniform.
+  split; [apply ex_t_two | apply ex_t_nodup].
 Qed.
 
 Lemma ex_reroot_edge :
@@ -254,11 +240,10 @@ Qed.
 
 Lemma ex_reorient :
   exists t' r', reorient ex_t None (Some 4) false [(4, [0%nat; 2%nat; 1%nat]); (0, [1%nat; 0%nat]); (1, [1%nat; 0%nat])] = Ok (t', r')
-    /\ t' <> ex_t /\ NoDup (ids ex_t) /\ (2 <= length (t_kids ex_t))%nat /\ NoDup (leaf_taxa ex_t)
-    /\ uniform_lengths ex_t.
+    /\ t' <> ex_t /\ NoDup (ids ex_t) /\ (2 <= length (t_kids ex_t))%nat /\ NoDup (leaf_taxa ex_t).
 Proof.
   eexists. eexists. split; [vm_compute; reflexivity|]. split; [discriminate|].
-  split; [apply ex_t_ids|]. split; [apply ex_t_two|]. split; [apply ex_t_nodup | apply ex_t_uniform].
+  split; [apply ex_t_ids|]. split; [apply ex_t_two | apply ex_t_nodup].
 Qed.
 
 Lemma ex_rotate :
@@ -272,13 +257,12 @@ Definition ex_unif : tree :=
 Lemma seed_unif_refuted :
   exists t r n upd coll supp t' r',
     reseed_at t r n upd coll supp = Ok (t', r')
-    /\ is_internal_node n t /\ NoDup (leaf_taxa t) /\ uniform_lengths t
+    /\ is_internal_node n t /\ NoDup (leaf_taxa t)
     /\ ~ Permutation (leaf_taxa t) (leaf_taxa t').
 Proof.
   exists ex_unif, (Some true), 1, false, false, true. eexists. eexists.
   split; [vm_compute; reflexivity|].
   split; [eexists; split; [vm_compute; reflexivity | discriminate]|].
   split; [simpl; nodup_tac|].
-  split; [left; unfold nonroot_lens; simpl; repeat (constructor; [discriminate|]); constructor|].
   intro P. apply Permutation_length in P. vm_compute in P. discriminate.
 Qed.
